@@ -94,7 +94,7 @@ def cases(rng: random.Random, tier: str):
             g = rand_admg(rng, 2, 6)
             a, b, Cs = rand_query(rng, g)
         else:
-            g = G.rand_graph(rng, 2, 5, acyclic=False)
+            g = G.rand_graph(rng, 2, 5, acyclic=False, pd=rng.choice([0.3, 0.5, 0.7]))
             V = G.all_nodes(g)
             if len(V) < 2:
                 continue
